@@ -289,7 +289,9 @@ impl Resolver<'_> {
             return vec![wildcard_field];
         }
 
-        for (name, decl) in module.names.iter().sorted_by_key(|(_, d)| d.order) {
+        // ties in `order` are broken by name, not by hash-map iteration order
+        let names = module.names.iter();
+        for (name, decl) in names.sorted_by(|a, b| (a.1.order, a.0).cmp(&(b.1.order, b.0))) {
             res.push(match &decl.kind {
                 DeclKind::Module(submodule) => {
                     let prefix = [prefix.to_vec(), vec![name]].concat();
